@@ -86,16 +86,6 @@ fn c14_compressed_len4() {
     compressed::<4>();
 }
 
-// @harness props=C14,C01 tier=thorough mem=10 t=2400 kani="--no-assertion-reach-checks" fn="name::wire::parse_compressed_name,name::wire::parse_pointer,name::new_boxed_name"
-//   bound="every buffer of exactly 5 octets (all 2^40), every start offset 0..=N+1 (so at and beyond the end); unwind 7"
-//   stubs="S7"
-//   sym="buf:[u8;5], start<=6"
-#[kani::proof]
-#[kani::unwind(7)]
-#[kani::stub(arrayvec::ArrayVec::try_extend_from_slice, try_extend_model)]
-fn c14_compressed_len5() {
-    compressed::<5>();
-}
 
 
 
@@ -274,7 +264,7 @@ fn c14_long_parse_uncompressed() {
 }
 
 
-// (Tried and dropped, measured: compressed parsing of 6- and 7-octet buffers was
+// (Tried and dropped, measured: compressed parsing of 5-, 6- and 7-octet buffers was
 // not calibrated within the time budget (5 octets: ~14 min / 13 GB), and
 // `parse_compressed_name` on the 270-octet long-name buffer - where the real
 // ArrayVec::try_extend_from_slice copies a label of symbolic length - ran out
